@@ -108,7 +108,7 @@ Verdict(rec) ==
         V09 == IF ~IsBio(rec.cfg) THEN <<"skip", "not-bioconsert">>
                ELSE IF ~Got THEN <<"skip", rec.out>>
                ELSE IF ~WF THEN <<"skip", "malformed-consensus">>
-               ELSE IF HasStarters(rec.cfg) /\ (Len(rec.starts) = 0 \/ ~StOK) THEN <<"skip", "starters-not-observed">>
+               ELSE IF HasStarters(rec.cfg) /\ (St = {} \/ ~StOK) THEN <<"skip", "starters-not-observed">>
                ELSE IF \E k1, k2 \in DOMAIN K : Sc(K[k1]) # Sc(K[k2]) \/ Sc2(K[k1]) # Sc2(K[k2])
                     THEN <<"viol", "C09:same-score">>
                ELSE IF \E k \in DOMAIN K, s \in St : ~LexLeq(Sc(K[k]), Sc2(K[k]), Sc(s), Sc2(s))
